@@ -24,10 +24,10 @@ def main(argv=None):
     tier, seed = R.tier_and_seed(argv)
     rng = random.Random(seed)
     q = tier == "quick"
-    plain = list(D.plain_inputs(range(1, 4), range(1, 4))) + [D.random_plain_input(rng, 4, rng.randint(2, 4)) for _ in range(16 if q else 300)]
+    plain = list(D.plain_inputs(range(1, 4), range(1, 4))) + [D.random_plain_input(rng, 4, rng.randint(2, 4)) for _ in range(30 if q else 300)]
     if not q:
         plain += [D.random_plain_input(rng, 5, rng.randint(2, 5)) for _ in range(60)]
-    un = [SR.random_super_input(rng, rng.randint(2, 4), rng.randint(1, 3), rng.randint(1, 3), False) for _ in range(50 if q else 500)]
+    un = [SR.random_super_input(rng, rng.randint(2, 4), rng.randint(1, 3), rng.randint(1, 3), False) for _ in range(60 if q else 500)]
     od = [SR.random_super_input(rng, rng.randint(2, 3), rng.randint(1, 3), rng.randint(1, 3), True, rootsyn_p=0.2, consistent_p=0.7)
           for _ in range(50 if q else 500)]
     pol = ["any", "all"]
